@@ -7,6 +7,7 @@ that `Headers.set` accepts it) when the view's keys and values are.
 import WzVerif.Lemmas.Views
 import WzVerif.Lemmas.Http
 import WzVerif.Lemmas.HttpAuth
+import WzVerif.Lemmas.HttpDigest
 import WzVerif.Lemmas.HttpCC
 import WzVerif.Lemmas.HttpCRange
 import WzVerif.Lemmas.HttpCsp
@@ -355,15 +356,52 @@ theorem wwwFrom_params (t : Str) (x : Str × Option Str) (d : ODict) (hs : WwwSc
   simp only [hne, Bool.false_eq_true, if_false, Http.partition_found hsp', hlow,
     Http.authRest_params t x d hk hnd hv, Http.ok_bind, Http.pure_eq_ok]
 
+/-- parameters of a `Digest` challenge in the domain of `www_digest_roundtrip` (C06): distinct
+non-empty token keys without `*`, every value a text (the digest dumper writes `None` as the text
+`None`) without CR / LF -/
+def digestOk (d : ODict) : Bool :=
+  d.all (fun e => Http.KeyOk e.1 && e.2.isSome && valNoNL e.2) && decide ((d.map (·.1)).Nodup)
+
+/-- the text values of a digest parameter dict -/
+def digestVals (d : ODict) : List (Str × Str) := d.map fun e => (e.1, e.2.getD [])
+
+theorem digestVals_back (d : ODict) (h : digestOk d = true) :
+    (digestVals d).map (fun kv => (kv.1, some kv.2)) = d := by
+  simp only [digestOk, Bool.and_eq_true, List.all_eq_true] at h
+  simp only [digestVals, List.map_map]
+  conv => rhs; rw [← List.map_id d]
+  apply List.map_congr_left
+  intro e he
+  obtain ⟨k, v⟩ := e
+  have := (h.1 (k, v) he).1.2
+  cases v with
+  | none => simp at this
+  | some t => rfl
+
+theorem digestText_noNL (ps : List (Str × Str)) (hk : ∀ y ∈ ps, Http.KeyOk y.1 = true)
+    (hv : ∀ y ∈ ps, hasNL y.2 = false) :
+    hasNL ("Digest".toList ++ ' ' :: Http.join ", " (ps.map Http.digestItemText)) = false := by
+  rw [hasNL_append, hasNL_cons]
+  have : hasNL (Http.join ", " (ps.map Http.digestItemText)) = false := by
+    apply hasNL_join _ _ (by decide)
+    intro p hp
+    obtain ⟨y, hy, rfl⟩ := List.mem_map.1 hp
+    have hky := hk y hy
+    simp only [Http.KeyOk, Bool.and_eq_true] at hky
+    simp only [Http.digestItemText, hasNL_append, hasNL_cons, hasNL_token y.1 hky.1.2, hasNL_quote y.2 _ (hv y hy)]
+    decide
+  rw [this]; decide
+
 /-- a challenge in the domain: a scheme that survives title/lower-casing, and either a token
 (stripped, `=` only as trailing padding, no CR/LF) with no parameters, or a non-empty dict of
-parameters (domain of `dictGood`, first value present) with no token and a scheme other than
-`digest` -/
+parameters with no token - in the domain of `dictGood` with the first value present, or for the
+scheme `digest` (always-quoted parameters) in the domain `digestOk` -/
 def authGood (c : Auth.St) : Bool :=
   WwwSchemeOk c.type && !hasNL (Http.pyTitle c.type) &&
   (match c.token, c.params with
    | some tok, [] => Http.AuthTokenOk tok && !hasNL tok
-   | none, x :: d => !(c.type == "digest".toList) && dictGood (x :: d) && x.2.isSome
+   | none, x :: d =>
+     if c.type == "digest".toList then digestOk (x :: d) else dictGood (x :: d) && x.2.isSome
    | _, _ => false)
 
 theorem auth_roundtrip (h : HList) (c : Auth.St) (hg : authGood c = true) : Auth.load (Auth.write h c).1 = c := by
@@ -386,8 +424,47 @@ theorem auth_roundtrip (h : HList) (c : Auth.St) (hg : authGood c = true) : Auth
     cases params with
     | nil => simp at hm
     | cons x d =>
-      simp only [Bool.and_eq_true, Bool.not_eq_true'] at hm
-      obtain ⟨⟨hnd, hdg⟩, hv⟩ := hm
+      by_cases hdig : (t == "digest".toList) = true
+      · -- Digest: C06's `www_digest_roundtrip`
+        simp only [hdig, if_true] at hm
+        have ht : t = "digest".toList := by simpa using hdig
+        subst ht
+        have hback := digestVals_back (x :: d) hm
+        have hall := hm
+        simp only [digestOk, Bool.and_eq_true, List.all_eq_true, decide_eq_true_eq] at hall
+        have hk : ∀ y ∈ digestVals (x :: d), Http.KeyOk y.1 = true := by
+          intro y hy
+          obtain ⟨e, he, rfl⟩ := List.mem_map.1 hy
+          exact (hall.1 e he).1.1
+        have hvv : ∀ y ∈ digestVals (x :: d), hasNL y.2 = false := by
+          intro y hy
+          obtain ⟨e, he, rfl⟩ := List.mem_map.1 hy
+          have h1 := (hall.1 e he).2
+          have h2 := (hall.1 e he).1.2
+          obtain ⟨k, v⟩ := e
+          cases v with
+          | none => simp at h2
+          | some tt => simpa [valNoNL] using h1
+        have hnd : ((digestVals (x :: d)).map (·.1)).Nodup := by
+          simpa [digestVals, Function.comp_def] using hall.2
+        have hrt := Http.www_digest_roundtrip_any (x.1, x.2.getD []) (digestVals d) (by simpa [digestVals] using hk)
+          (by simpa [digestVals] using hnd)
+        have hcons : (x.1, x.2.getD []) :: digestVals d = digestVals (x :: d) := rfl
+        rw [hcons, hback] at hrt
+        have hdump : Http.wwwToHeader ⟨"digest".toList, x :: d, none⟩
+            = .ok ("Digest".toList ++ ' ' :: Http.join ", " ((digestVals (x :: d)).map Http.digestItemText)) := by
+          conv => lhs; rw [← hback]
+          unfold Http.wwwToHeader
+          simp only [beq_self_eq_true, if_true, List.map_map, Function.comp_def, Http.optText]
+          rfl
+        rw [hdump] at hrt
+        simp only [Http.ok_bind] at hrt
+        simp only [Auth.write, Auth.toHeader, hdump, writeText_ok, Auth.load,
+          set_getKey _ _ _ (digestText_noNL _ hk hvv), hrt]
+      have hdig' : (t == "digest".toList) = false := by simpa using hdig
+      simp only [hdig', Bool.false_eq_true, if_false, Bool.and_eq_true] at hm
+      have hnd := hdig'
+      obtain ⟨hdg, hv⟩ := hm
       have hk := dictGood_keys hdg
       have hth : Auth.toHeader ⟨t, x :: d, none⟩
           = .ok (Http.pyTitle t ++ ' ' :: Http.join ", " ((x :: d).map Http.dictItemText)) := by
